@@ -261,6 +261,16 @@ def transpose_jobs(tier, seed):
     return jobs
 
 
+def parse_jobs(tier, seed):
+    """C09: every query of the grammar menu (printed by the specification's canonical printer, and built programmatically),
+    token-level mutations of a set of seed queries, and hand-written inputs outside the SELECT grammar."""
+    quick = tier == 'quick'
+    jobs = []
+    for style in ((seed % 5, 0) if quick else range(5)):
+        jobs.append(dict(kind='module_gen', name=f'parse_s{style}', module='Gen_Query.tla', constants=dict(Depth=2 if quick else 3), style=style))
+    return jobs
+
+
 def validation_jobs(tier, seed):
     style = seed % 5
     quick = tier == 'quick'
@@ -322,6 +332,11 @@ def plan_for(prop, tier, seed, replay_file=None):
     if prop in ('C05', 'C11', 'C15'):
         return dict(jobs=roundtrip_jobs(prop, tier, seed), rule=STORE_RULE + '; every history is extended with serialisation round trips '
                     'after which it continues on the reloaded store', assumptions=STORE_ASSUMPTIONS)
+    if prop == 'C09':
+        return dict(jobs=parse_jobs(tier, seed), rule='TLC enumerates the STAMQL grammar menu (Gen_Query.tla), prints every query with the '
+                    'specification\'s canonical printer and derives token-level mutations; the harness parses, prints and re-parses each '
+                    'text (and builds each query programmatically), TLC validates every Parse event with StamQuery!ParseOK',
+                    assumptions=STORE_ASSUMPTIONS)
     if prop == 'C16':
         return dict(jobs=transpose_jobs(tier, seed), rule=STORE_RULE, assumptions=STORE_ASSUMPTIONS)
     if prop == 'C17':
@@ -357,6 +372,17 @@ def run_job(job, prop, tier, seed):
                     model_run=dict(name=job['name'], module=job['module'], constants=job['constants'], distinct_states=r['distinct'],
                                    states_generated=r['states'], wall_s=round(r['wall'], 1), invariants=job['invariants'],
                                    properties=job['properties']))
+    if kind == 'module_gen':
+        behs, r = generate_from(job['module'], job['name'], job['constants'], timeout=job.get('timeout', 900))
+        if not behs:
+            raise ToolError(f'generator {job["name"]} produced no behaviours')
+        trace = replay(job['name'], behs, style=job.get('style', 0), extra_env=job.get('env'))
+        mism, stats = validate(job['name'], trace)
+        nev = sum(len(json.loads(b)) for b in behs)
+        return dict(states=r['distinct'], transitions=r['states'], traces_validated_against_impl=len(behs), events_validated=nev,
+                    unexamined_events=stats['skipped'], mismatches=mism, samples=[sample_of(behs[0], maxops=6)],
+                    generator=dict(name=job['name'], module=job['module'], constants=job['constants'], behaviours=len(behs),
+                                   events=nev, generator_states=r['distinct'], idstyle=job.get('style', 0)))
     if kind == 'store_gen':
         behs, r = generate(job['name'], job['constants'], depth=job.get('depth'), simulate=job.get('simulate'),
                            simdepth=job.get('simdepth'), seed=seed if job.get('simulate') else None,
